@@ -9,8 +9,8 @@ ASSUMPTIONS = [
     "idealised: SHA-256 and address derivation are collision-free and domain-separated (symbolic hashes, structured keys); only wallets sign",
     "the real processors run natively inside solana-program-test 3.0.12 (vendored patches under harness/vendor), overflow checks off",
 ]
-FOOTPRINT = RD_ALL | PP_ALL | {42}
-FAMILIES = [("bank-directed", (19, 0), (19, 0), ()), ("bank-rd", (16, 140), (48, 260), ()), ("bank-passport", (16, 80), (48, 200), ())]
+FOOTPRINT = RD_ALL | PP_ALL | {42, 61}
+FAMILIES = [("bank-directed", (22, 0), (22, 0), ()), ("bank-rd", (16, 140), (48, 260), ()), ("bank-passport", (16, 80), (48, 200), ())]
 
 def run(ctx, v):
     return bankprop.run("C09", ctx, v, FAMILIES, FOOTPRINT, monitor="C09", clause_filter=None, kinds_of_interest=None)
